@@ -682,7 +682,9 @@ def matrix_cells():
 
 # ------------------------------------------------------------------------------------ (2b) generated mutation
 GM_TRAVS = ('flatten', 'with_path', 'with_accessor', 'iter', 'iter-between', 'leaves', 'structure', 'paths', 'accessors', 'one_level', 'all_leaves', 'map', 'map_rest', 'map_rest_rev', 'map_inplace',
-            'transpose_map', 'flatten_up_to', 'broadcast_common', 'broadcast_common_rev', 'broadcast_prefix', 'broadcast_map', 'prefix_errors', 'reduce', 'is_leaf')
+            'transpose_map', 'flatten_up_to', 'broadcast_common', 'broadcast_common_rev', 'broadcast_prefix', 'broadcast_map', 'prefix_errors', 'reduce', 'is_leaf',
+            'unflatten-list', 'tree_unflatten-list', 'traverse-list', 'walk-list', 'unflatten-list', 'traverse-list')
+GM_LEAF_TRAVS = ('unflatten-list', 'tree_unflatten-list', 'traverse-list', 'walk-list')  # here the LEAVES LIST handed to the treespec is what gets mutated
 GM_MUTS = ('del-first', 'del-last', 'clear', 'grow', 'replace', 'reorder', 'shrink-to-1', 'nest')
 _GM_MUTABLE = (list, dict, OrderedDict, defaultdict, deque)
 
@@ -759,11 +761,29 @@ def gen_mutation(sink, seed, idx):  # noqa: C901
     ident = dict(cs.ident(), part='generated-mutation', traversal=trav, mutation=mutation, opt=repr(opt))
     subs = same.subobjects(tree, limit=300)
     targets = [x for x in subs if type(x) in _GM_MUTABLE] + [x.kids for x in subs if isinstance(x, U.CBase) and type(x.kids) is list]
+    lv0 = sp0 = lst = None
+    if trav in GM_LEAF_TRAVS:
+        with opt.ctx():
+            lv0, sp0 = optree.tree_flatten(twin, **kw)
+        lst = list(lv0)
+        targets = [lst]
     if not targets:
         sink.count('generated-mutation/no-mutable-container')
         return
     target = targets[rng.randrange(len(targets))]
     state = dict(n=0, at=None, fired=0)
+
+    def fn_tick(node):
+        U.tick('f_node', node)
+        return node
+
+    def fw_tick(node_type, node_data, children):
+        U.tick('f_node', node_type)
+        return children
+
+    def fl_tick(x):
+        U.tick('f_leaf', x)
+        return x
 
     def hook(site, obj):
         state['n'] += 1
@@ -850,6 +870,17 @@ def gen_mutation(sink, seed, idx):  # noqa: C901
             optree.prefix_errors(twin, tree, **kw)
         elif trav == 'reduce':
             optree.tree_reduce(lambda a, b: a, tree, None, **kw)
+        elif trav in GM_LEAF_TRAVS:
+            # user code reached while the treespec consumes the list (custom unflatten functions, visitors) mutates that list
+            lst[:] = lv0
+            if trav == 'unflatten-list':
+                sp0.unflatten(lst)
+            elif trav == 'tree_unflatten-list':
+                optree.tree_unflatten(sp0, lst)
+            elif trav == 'traverse-list':
+                sp0.traverse(lst, fn_tick, fl_tick)
+            else:
+                sp0.walk(lst, fw_tick, fl_tick)
         else:
             raise AssertionError(trav)
         return None
@@ -879,12 +910,14 @@ def gen_mutation(sink, seed, idx):  # noqa: C901
                     sink.count(f'observed-internal-error:generated-mutation/{trav}')
         finally:
             U.HOOK[0] = old
-    kind = type(target).__name__ if not any(target is getattr(x, 'kids', None) for x in subs if isinstance(x, U.CBase)) else 'custom-kids'
+    kind = 'leaves-list' if target is lst else type(target).__name__ if not any(target is getattr(x, 'kids', None) for x in subs if isinstance(x, U.CBase)) else 'custom-kids'
     sink.check(problem is None, f'generated-mutation/inconsistent/{trav}/{kind}/{mutation}', 'a container mutated during traversal leads to a python exception or a consistent result', ident, problem)
     sink.count(f'generated-mutation-outcome:{out}')
     sink.count('generated-mutation-calls')
     if state['fired']:
         sink.count('generated-mutation-fired')
+        if target is lst:
+            sink.count('generated-mutation-fired/leaves-list')
     sink.cell('generated-mutation', trav, kind, mutation)
     sink.case(harness.fp('genmut', seed, idx), bool(state['fired']), dict(ident, outcome=out, k=state['at'], K=K, target=kind) if state['fired'] and idx < 3 else None)
 
@@ -1309,5 +1342,6 @@ def finalize(sink, tier, seed):
     sink.require('mutation-callback-fired', 200)
     sink.require('confusion-calls', 1000)
     sink.require('generated-mutation-fired', 500)
+    sink.require('generated-mutation-fired/leaves-list', 50)
     sink.require('mismatch-calls', 500)
     sink.require('variant:asan')
